@@ -1111,7 +1111,9 @@ class PredFlow:
     such bools, merges.  So `match r {Ok(..) => A, _ => B}`, `if r.is_err() {return B}; A`, `if r != Ok(0) {..}`,
     and `let won = helper(); if won {A} else {B}` all give block A the value 'P'."""
 
-    def __init__(self, fn, classify_switch, classify_bool=None):
+    def __init__(self, fn, classify_switch, classify_bool=None, start=0, cut=()):
+        """start/cut: propagate from block `start` only (nothing known there) and not through the blocks in `cut` — the
+        facts that hold on the ways from one edge of a switch to the next loop iteration, say."""
         self.fn = fn
         self.body = body = fn.body
         self.sy = Sym(fn)
@@ -1120,14 +1122,15 @@ class PredFlow:
         n = body.n
         self.K = ["B"] * n
         self.env_in = [None] * n
-        self.K[0] = "T"
-        self.env_in[0] = {}
-        work = [0]
+        self.K[start] = "T"
+        self.env_in[start] = {}
+        cut = set(cut)
+        work = [start]
         it = 0
         while work and it < 50000:
             it += 1
             b = work.pop()
-            if self.K[b] == "B":
+            if self.K[b] == "B" or b in cut:
                 continue
             for tgt, k2, env2 in self._transfer(b):
                 if tgt is None or not isinstance(tgt, int) or tgt >= n or k2 == "B":
